@@ -49,6 +49,8 @@ def run(rep, idx, tier):
     namespace_sites(rep, idx)
     name_class(rep, idx)
     is_available(rep, idx)
+    rep.require("C18.8", 1)
+    search_domain(rep, idx)
 
 
 def ns_calls(c, attr):
@@ -546,6 +548,48 @@ def prefix_idiom(rep, fi, flag, idx=None, later=True):
                     "prefix conflicts between names of different length are missed")
             return
     rep.unk("C18.5", site, f"conflict test `{ast.unparse(second.test)}`", "not one of the recognised shapes")
+
+
+def search_domain(rep, idx):
+    """The queried name is compared with *every* assigned name.  A search that narrows the candidates by their position in a sorted
+    list (bisect, an index window, neighbours only) is only complete when the order agrees with the prefix relation -- and the
+    only order available for names that mix strings and integers goes through str(part), under which 0 and '0' tie, so the real
+    prefix / extension of a name need not be adjacent to it."""
+    cls = idx.find_class("_Namespace")
+    fi = cls.method("is_available")
+    site = fi.site
+    closure, todo = [], [fi]
+    while todo:
+        g = todo.pop()
+        if g in closure:
+            continue
+        closure.append(g)
+        for n in ast.walk(g.node):
+            if isinstance(n, ast.Call) and isinstance(n.func, ast.Attribute) and isinstance(n.func.value, ast.Name) and n.func.value.id in ("self", "cls"):
+                h = cls.method(n.func.attr)
+                if h is not None and h.name not in ("assign", "extend"):
+                    todo.append(h)
+    positional = []
+    for g in closure:
+        for n in ast.walk(g.node):
+            if isinstance(n, ast.Call) and ast.unparse(n.func).startswith("bisect"):
+                positional.append((g, n, "bisection"))
+            if isinstance(n, ast.Call) and isinstance(n.func, ast.Attribute) and n.func.attr == "index" and n.args:
+                positional.append((g, n, "list.index()"))
+    str_keys = [n for fs in cls.methods.values() for f in fs for n in ast.walk(f.node)
+                if isinstance(n, (ast.GeneratorExp, ast.ListComp)) and isinstance(n.elt, ast.Call) and isinstance(n.elt.func, ast.Name) and
+                n.elt.func.id == "str"]
+    what = "every assigned name is a candidate of the conflict search"
+    if not positional:
+        rep.ok("C18.8", site, what, f"no positional narrowing (bisect / index) in is_available() and the {len(closure) - 1} helper(s) it calls")
+        return
+    g, n, how = positional[0]
+    if str_keys:
+        rep.bad("C18.8", g.site, what, f"the candidates are narrowed by {how} (`{ast.unparse(n)[:60]}`) in a list ordered by str(part): an integer part "
+                "and the string with the same digits tie under that order, so the assigned prefix or extension of a name need not be next to "
+                "it, and a conflicting name is accepted", line=n.lineno)
+    else:
+        rep.unk("C18.8", g.site, what, f"the candidates are narrowed by {how}; whether the order used agrees with the prefix relation is not decided")
 
 
 def name_ordering(rep, idx):
